@@ -14,7 +14,7 @@ contract(E + "Element.properties@setter",
 V = "statham.schema.validation:"
 ELEM_OK = "isinstance(element, Element) or is_cls(element)"
 
-contract(V + "get_validators", requires="is_obj(element) and elem_wf(element)",
+contract(V + "get_validators", requires="is_obj(element) and elem_wf(element) and (attr_absent(element,'__properties__') or is_np(element.__properties__) or isinstance(element.__properties__, Properties))",
          returns="is_list(result) and forall(lambda j: isinstance(result[j], Validator), len(result))",
          result_kind="list", ghost={"result_fresh": True},
          props=["C01", "C08", "C13", "C14", "C09"])
